@@ -144,6 +144,8 @@ def f3(ctx, rid):
             n += 1
             if result_observed(prog, f, c):
                 continue
+            if c.path.startswith('tokio::sync::Semaphore') and c.name.startswith('acquire'):
+                continue    # a throttling permit: AcquireError means `semaphore closed`, never a storage error
             root = prog.fns[f.id].root
             key = 'dropped-result|%s|%s' % (root, c.name)
             ex = EXCEPTIONS.get((root, c.name))
